@@ -49,7 +49,7 @@ Theorem add_sum_n_bits_final fresh basis be xs s rs s' :
   run fresh (add_sum_n_bits basis be xs) s = Ok (rs, s') ->
   exists b, resolve_basis basis = Ok b /\
     ext (bc s) (bc s') /\ inputs (bc s') = inputs (bc s) /\ outputs (bc s') = outputs (bc s) /\
-    (exists g, adds (t_of b) (bc s) (bc s') g /\ (b = AIG -> (g + 3 * length rs <= 7 * length xs)%nat)) /\
+    (exists g, adds (t_of b) (bc s) (bc s') g /\ nbits_bound b g (length rs) (length xs)) /\
     forall asg xv, bvals (bc s) asg xs xv ->
       exists rv, bvals (bc s') asg rs rv /\ decode be rv = ones xv.
 Proof.
